@@ -115,9 +115,8 @@ impl<R: DebugBufRead> BufRead for CompressedDataReader<R> {
                 buffer.advance(amt);
             }
             Self::Done { .. } => {}
-            Self::Error => {
-                panic!("CompressedDataReader errored");
-            }
+            // `consume` after an error must not panic (the reader keeps returning `Err`)
+            Self::Error => {}
         }
     }
 }
